@@ -237,6 +237,7 @@ func c19Run(in *hub.Instance, cs c19Case) (res c19Res) {
 	}
 	// (2) each refund <= the fee that user paid; refunds only to refund addresses of the batch
 	totalRef := new(big.Int)
+	refundGiven := map[int]*big.Int{}
 	for i := 0; i < cs.Size; i++ {
 		if cs.Origin != "minter" {
 			continue
@@ -246,6 +247,7 @@ func c19Run(in *hub.Instance, cs c19Case) (res c19Res) {
 			continue
 		}
 		totalRef.Add(totalRef, r)
+		refundGiven[i] = new(big.Int).Set(r)
 		if new(big.Rat).SetInt(r).Cmp(toHub(feeExt[txhash[i]])) > 0 {
 			bad("fee_refund_exceeds_fee_paid", "batchTxExecuted", "transfer %d refunded %s, paid %s", i, r, toHub(feeExt[txhash[i]]).FloatString(0))
 		}
@@ -298,6 +300,17 @@ func c19Run(in *hub.Instance, cs c19Case) (res c19Res) {
 		f := rec.ExternalFee.BigInt()
 		if f.Sign() < 0 || f.Cmp(feeExt[txhash[i]]) > 0 {
 			bad("fee_record_out_of_range", "batchTxExecuted(record.ExternalFee.Sub(toRefund))", "transfer %d: record says fee kept %s external units, fee paid was %s external units (token decimals %d)", i, f, feeExt[txhash[i]], cs.Dec)
+		}
+		// ... and it reports the fee actually kept: fee paid minus what was refunded to this transfer's refund
+		// address (refund converted to external units; conversion truncates by less than one unit)
+		given := refundGiven[i]
+		if given == nil {
+			given = new(big.Int)
+		}
+		keptExact := new(big.Rat).Sub(new(big.Rat).SetInt(feeExt[txhash[i]]), new(big.Rat).Quo(new(big.Rat).SetInt(given), toHub(big.NewInt(1))))
+		d := new(big.Rat).Sub(new(big.Rat).SetInt(f), keptExact)
+		if d.Sign() < 0 || d.Cmp(big.NewRat(1, 1)) >= 0 {
+			bad("fee_record_differs_from_fee_kept", "batchTxExecuted(TxFeeRecord)", "transfer %d (refund chain %s): fee paid %s external units, refunded %s hub units, so %s was kept, but the record reports %s", i, cs.Origin, feeExt[txhash[i]], given, keptExact.FloatString(3), f)
 		}
 	}
 	res.outcome = fmt.Sprintf("executed reimb>0:%v refunds:%v com>0:%v", reimb.Sign() > 0, totalRef.Sign() > 0, sumCom.Sign() > 0)
